@@ -11,8 +11,12 @@ NOTE = ("Trusted base: Go type checker, go/cfg, go/ssa and VTA of golang.org/x/t
         "current source; it does NOT decide the run-time behaviour (row sets, values, schedules) - see DESIGN.md section 4 'Not decided'.")
 
 CLAIMED = {
+ "C06": ("4 (C06)", "custom static analysis: SSA store/map-update/element-store enumeration with inter-procedural writes-through-parameter summaries, copy-obligation check of Statement.clone/getInstance, go/cfg guard facts with merge implications for Session, alias check of append/element stores in MergeClause/Build",
+   "Static, all-methods/all-sites: no exported *DB method writes through its receiver (directly or via a callee); Statement.clone carries every per-chain field (maps deep, in-place-extended slices exact-length); getInstance keeps pool/context/SkipHooks with a fresh Clauses map; Session mutates a statement only after replacing it by a clone; MergeClause never appends onto or stores into a slice it did not create; Build/NegationBuild never store into slices reachable from receiver/parameters; Execute/Update/Count/AfterQuery reset or restore temporary state. Found and fixed three genuine upstream defects (known_findings.json). Necessary conditions only: equality of SQL/Vars with an isolated replay is not decided."),
  "C09": ("4 (C09)", "custom static analysis: go/cfg guard-fact dominance with call-induced kills + symbolic path enumeration of the guard function + sibling check of all WHERE-adding sites",
    "Static, all-paths: every UPDATE/DELETE driver call is dominated by the missing-WHERE guard and by an Error == nil test made after it; path enumeration over the guard shows it raises ErrMissingWhereClause on some path and that every non-raising path carries AllowGlobalUpdate, an earlier error, or 'WHERE present and (soft-delete marker absent or >1 expressions)'; every WHERE clause added from user conditions or model keys is guarded by non-emptiness / non-zero key and BuildCondition yields nothing for empty input; the soft-delete filter is always paired with the marker the guard reads. Necessary conditions only: whether a user condition is effective at run time is not decided."),
+ "C16": ("4 (C16)", "custom static analysis: copy-obligation check (attrs/assigns), SSA static call-closure reachability to pipeline accessors, symbolic path enumeration of FirstOrCreate, go/cfg guard facts on Save",
+   "Static, all-paths: attrs/assigns survive every statement derivation (clone) and are stored on the derived instance; FirstOrInit's static call closure in package gorm reaches only the query pipeline, whose executors issue only query-type driver calls; every path through FirstOrCreate performs at most one write, Create only when the lookup matched nothing and did not fail, Updates only for a found record with Assign values; Save's insert fallback is an OnConflict{UpdateAll} upsert guarded by no-error/no-rows/!DryRun/no-selection. Found and fixed the upstream defect that Session/WithContext dropped Attrs/Assign. Convergence of table contents is not decided."),
  "C18": ("4 (C18)", "custom static analysis: SSA backward value-origin of every driver-call context argument with recursive caller check, taint of context.Background/TODO results, who-writes Statement.Context, Session-literal check",
    "Static, all-sites: the context argument of every driver call derives (SSA value origin) from Statement.Context of the statement whose pool is called or from a merely forwarded context parameter whose callers do; context.Background/TODO results flow only into logger calls and Open's root statement; every Statement literal with a pool takes its parent's Context and the only other writer of Statement.Context is Session storing a non-nil Session.Context; library Session literals that set Context use the context of the handle they derive from; no context-less database/sql method is called. That database/sql honours a cancelled context is assumed."),
  "C19": ("4 (C19)", "custom static analysis: go/cfg guard-fact dominance + SSA value-origin + who-may-call over resolved callees",
